@@ -180,6 +180,7 @@ class Config:
         self.inline_only = None  # optional set of "module.qualname" allowed to be interpreted
         self.max_unroll = 64
         self.attr_hook = None  # callable(interp, obj, name) -> value | _MISSING
+        self.modifies_args = False  # contract: the target may write into arrays reachable from its arguments
         self.inline_generators = set()  # generator functions whose body is run as a trace producer (on_yield hook)
 
 
@@ -390,6 +391,8 @@ class Interp:
             if isinstance(other, (list, tuple)):
                 return self.native(fn, [other], {})
             raise OutsideSubset("list.extend of a concrete list with a symbolic sequence")
+        if type(self_obj) is dict and name == "update" and len(args) == 1 and isinstance(args[0], dict) and all_concrete(list(args[0].keys())) and not kwargs:
+            return self.native(fn, args, kwargs)
         if type(self_obj) is dict and (name in ("items", "keys", "values", "copy") or (name in ("update", "setdefault", "__setitem__", "pop") and all_concrete(args[:1]) and all(isinstance(k, str) for k in kwargs))):
             if name == "update" and args and not isinstance(args[0], dict):
                 raise OutsideSubset("dict.update with a non-dict")
